@@ -39,6 +39,25 @@ class C17(Prop):
         return chips
 
     @staticmethod
+    def parse_fans(g):
+        """chips of a hw.tree dump: [(platform, {index: rpm channel})] (position among the chip's fans -> channel)"""
+        import re
+        chips = []
+        for m in re.finditer(r"\[([^\]]*)\]", g):
+            parts = m.group(1).split(";")
+            if len(parts) < 5:
+                continue
+            fm = {}
+            t = parts[3][len("fans="):] if parts[3].startswith("fans=") else ""
+            if t and t != "-":
+                for e in t.split(","):
+                    f = e.split(":")
+                    if len(f) >= 2:
+                        fm[int(f[0])] = int(f[1])
+            chips.append((parts[1], fm))
+        return chips
+
+    @staticmethod
     def parse_dirs(g):
         """chips of a hw.tree dump: [(platform, directory)]"""
         import re
@@ -50,7 +69,7 @@ class C17(Prop):
         lean_cases = list(cases(ops, lean)) if lean is not None else None
         for cn, (cops, cgo) in enumerate(cases(ops, go)):
             clean = lean_cases[cn][1] if lean_cases is not None else None
-            chips, dirs_of, single, failed = [], [], {}, set()
+            chips, fan_chips, dirs_of, single, failed = [], [], [], {}, set()
             for i, (op, g) in enumerate(zip(cops, cgo)):
                 if op.startswith("hw.tree"):
                     # which devices exist is taken from the MODEL's discovery of the same tree (proved: C17_fan_paths,
@@ -58,6 +77,7 @@ class C17(Prop):
                     # devices must not define what the entries "name"
                     ref = clean[i] if clean is not None and i < len(clean) and clean[i].startswith("n=") else g
                     chips = self.parse_tree(ref)
+                    fan_chips = self.parse_fans(ref)
                     dirs_of = self.parse_dirs(ref)
                     single, failed = {}, set()   # results of the single-entry hw.bindfan ops on THIS tree
                 if op.startswith("hw.bindsensor ") and g.startswith("err"):
@@ -177,6 +197,15 @@ class C17(Prop):
                     if int(a.get("index", "0") or 0) > 0 and int(r["idx"]) != int(a["index"]):
                         out.append(viol("bound a different index than selected", cops, cgo, upto=i))
                         break
+                    # an index names the fan at that position among the chip's fans IN THE REFERENCE DISCOVERY (the model's,
+                    # proved: C17_fan_by_index) - not whatever numbering the implementation's own discovery hands out
+                    if int(a.get("index", "0") or 0) > 0 and int(a.get("rpm", "0") or 0) == 0:
+                        pat, idx = a.get("platform", ""), int(a["index"])
+                        allowed = {fm[idx] for (plat, fm) in fan_chips if pat.lower() in plat.lower() and idx in fm}
+                        if allowed and int(r["rpmch"]) not in allowed:
+                            out.append(viol(f"fan entry (platform '{pat}', index {idx}) was bound to rpm channel {r['rpmch']}; the fan at that "
+                                            f"position of a matching chip is on channel {sorted(allowed)}", cops, cgo, upto=i))
+                            break
         return out
 
     def nontrivial(self, name, ops, go):
